@@ -2,9 +2,9 @@
 # usage: seed_verify.sh <outdir>   — confirm a seeded change in its scratch worktree:
 #   demo fails with the patch, passes without; the unedited suite passes with the patch.
 OUT=$1
-WT=/tmp/seed/vwt
+WT=${VWT:-/tmp/seed/vwt}   # several verification worktrees may run in parallel (VWT=/tmp/seed/vwt2 ...)
 export CARGO_INCREMENTAL=0
-if [ ! -d $WT ]; then git -C /repo worktree add --detach $WT HEAD -q && cp -a --reflink=auto /repo/target $WT/target; fi
+if [ ! -d $WT ]; then git -C /repo worktree add --detach $WT HEAD -q && cp -a /tmp/seed/base/target $WT/target; fi
 cd $WT || exit 2
 LOG=$OUT/verify.log; : > $LOG
 DEMO_DST=$(grep -oE 'tests/[A-Za-z0-9_]+\.rs' $OUT/demo_cmd.txt | head -1)
@@ -13,13 +13,13 @@ DEMO_NAME=$(basename $DEMO_DST .rs)
 git checkout -q -- . ; git clean -fdq -e target
 cp $OUT/demo.rs $DEMO_DST
 echo "== demo WITHOUT patch (expect pass)" >> $LOG
-cargo test --offline -j 8 --test $DEMO_NAME >> $LOG 2>&1; A=$?
+cargo test --offline -j ${VJ:-6} --test $DEMO_NAME >> $LOG 2>&1; A=$?
 git apply $OUT/patch.diff || { echo "PATCH DOES NOT APPLY" >> $LOG; exit 3; }
 echo "== demo WITH patch (expect fail)" >> $LOG
-cargo test --offline -j 8 --test $DEMO_NAME >> $LOG 2>&1; B=$?
+cargo test --offline -j ${VJ:-6} --test $DEMO_NAME >> $LOG 2>&1; B=$?
 rm -f $DEMO_DST
 echo "== suite WITH patch (expect pass)" >> $LOG
-cargo nextest run --workspace --no-fail-fast --test-threads 8 --offline >> $LOG 2>&1; C=$?
+cargo nextest run --workspace --no-fail-fast --test-threads ${VJ:-6} --offline >> $LOG 2>&1; C=$?
 grep -E "Summary|tests run" $LOG | tail -3
 echo "RESULT demo_without=$A demo_with=$B suite_with=$C" | tee -a $LOG
 [ $A -eq 0 ] && [ $B -ne 0 ] && [ $C -eq 0 ] && echo CONFIRMED | tee -a $LOG
